@@ -1,6 +1,23 @@
 /* The real list.c plus direct-call shims.  Each shim proves (assert) that the function
  * pointer stored in the list object is the static function it calls. */
+/* Typed allocation inside list.c as well (same overrides as verif_post.h applies to every other TU):
+ * with untyped KSI_malloc'd list objects CBMC cannot propagate the stored function pointers and
+ * lengths, and every list->obj_free() call fans out over all address-taken functions (measured:
+ * 100 s of symbolic execution for a 6-byte concrete TLV, < 1 s with typed objects). */
+#include "internal.h"
+#include <string.h>
+#define VERIF_NO_LIST_DEVIRT
+#include "verif_post.h"
+#ifdef VERIF_FAULT_ALLOC
+#define VERIF_LW_GATE() VERIF_fault_gate()
+#else
+#define VERIF_LW_GATE() 1
+#endif
+/* the only KSI_calloc in list.c allocates the element array */
+#define KSI_calloc(n, s) ({ size_t verif_n = (n); struct listEl_st *verif_p = VERIF_LW_GATE() ? malloc(verif_n * sizeof(struct listEl_st)) : NULL; \
+	if (verif_p != NULL) memset(verif_p, 0, verif_n * sizeof(struct listEl_st)); (void)(s); (void *)verif_p; })
 #include "list.c"
+#undef KSI_calloc
 #ifdef REPLAY
 #include <assert.h>
 #define LW_ASSERT(c) assert(c)
